@@ -12,7 +12,13 @@
 (*            while the messages are published;                                                           *)
 (*   cpubx    a single QoS1 PUBLISH of the client model of MqttDelivery!ClientPublish: packet ids          *)
 (*            1..2 re-used once acknowledged, an unacknowledged message sent again with DUP=1, and the     *)
-(*            verdict ("pass" / "drop") the backend pipeline gives on this packet.                          *)
+(*            verdict ("pass" / "drop") the backend pipeline gives on this packet;                          *)
+(*   stall    a stalled reader: client c stops reading from its connection (the broker's writes to it        *)
+(*            block), n > QCap messages that c must get are published meanwhile, so that c's outbound          *)
+(*            queue in the broker is full; in that state c sends a QoS1 PUBLISH (the pipeline lets it pass);    *)
+(*            ms milliseconds later c reads again.  QoS0 copies beyond the queue's capacity may be dropped       *)
+(*            (the contract's waiver), every QoS1 copy must arrive, and so must the PUBACK of c's PUBLISH.        *)
+(*            (With a QoS0 burst c acknowledges promptly, so that nothing but the burst is in its queue.)          *)
 EXTENDS MqttDelivery, Json, SequencesExt
 
 CONSTANTS GenFilters, MaxSteps,
@@ -22,7 +28,9 @@ CONSTANTS GenFilters, MaxSteps,
           WithCPub,     \* FALSE: no client publishes (narrow universes used to make re-subscriptions with another QoS frequent)
           UpOnly,       \* TRUE: nothing but single client PUBLISH packets (cpubx): conversations in which packet ids are re-used,
                         \* packets dropped by the pipeline and retransmitted with DUP=1 are frequent
-          Ages          \* the values age[c] is drawn from
+          Ages,         \* the values age[c] is drawn from
+          WithStall,    \* TRUE: stalled-reader steps are generated
+          StallMs       \* the durations (ms) a stalled reader stays away after its PUBLISH
 VARIABLES out, pol, k, age
 
 (* prompt: PUBACK on receipt; late: only after a retransmission was seen; never; holdfirst: prompt for   *)
@@ -32,18 +40,18 @@ Policies == {"prompt", "late", "never", "holdfirst"}
 GInit == /\ subs = {} /\ n = 0 /\ last = [a |-> "init"]
          /\ msgs = <<>> /\ inq = [c \in Clients |-> <<>>] /\ pend = [c \in Clients |-> <<>>] /\ got = [c \in Clients |-> <<>>]
          /\ ackd = [c \in Clients |-> {}] /\ resends = 0 /\ up = <<>> /\ piped = {} /\ upack = <<>> /\ step = [a |-> "init"]
-         /\ infl = [c \in Clients |-> [p \in PidsUp |-> 0]] /\ byst = {}
+         /\ infl = [c \in Clients |-> [p \in PidsUp |-> 0]] /\ byst = {} /\ rl = [c \in Clients |-> 0]
          /\ pol \in [Clients -> Policies] /\ k = 0 /\ age \in [Clients -> Ages]
          /\ out = ToJson([a |-> "init", pol |-> pol, age |-> age])
 
-Frame == UNCHANGED <<msgs, inq, pend, got, ackd, resends, up, piped, upack, infl, byst, step, pol, age>>
+Frame == UNCHANGED <<msgs, inq, pend, got, ackd, resends, up, piped, upack, rl, infl, byst, step, pol, age>>
 
 GSub == \E c \in GenClients, f \in GenFilters, q \in QoS :
            /\ Subscribe(c, <<f>>, <<q>>, {1})
            /\ out' = ToJson([a |-> "sub", c |-> c, f |-> f, q |-> q]) /\ Frame
 GUnsub == \E c \in GenClients, f \in GenFilters :
            /\ \E s \in subs : s.c = c /\ s.f = f
-           /\ Unsubscribe(c, <<f>>)
+           /\ Unsubscribe(c, <<f>>, {1})
            /\ out' = ToJson([a |-> "unsub", c |-> c, f |-> f]) /\ Frame
 GPub == \E t \in PubTopics, q \in QoS, churn \in BOOLEAN :
            /\ subs # {}
@@ -59,10 +67,19 @@ GCPubX == \E c \in Clients, pid \in PidsUp, re \in BOOLEAN, v \in Verdicts :
            /\ ClientPublish(c, pid, 1, TAB, re, v)
            /\ out' = ToJson([a |-> "cpubx", c |-> c, pid |-> pid, q |-> 1, t |-> TAB, u |-> step'.u, dup |-> re, v |-> v])
            /\ UNCHANGED <<pol, age>>
+GStall == \E c \in Clients, t \in PubTopics, q \in QoS, d \in StallMs :
+           /\ WithStall
+           /\ c \in Must(t, q)
+           /\ q = 0 => pol[c] = "prompt"
+           /\ out' = ToJson([a |-> "stall", c |-> c, t |-> t, q |-> q, ms |-> d, n |-> QCap + 10,
+                               must |-> SetToSeq(Must(t, q)), may |-> SetToSeq(May(t, q))])
+           /\ UNCHANGED vars /\ Frame
+StallPossible == \E c \in Clients, t \in PubTopics, q \in QoS : c \in Must(t, q) /\ (q = 0 => pol[c] = "prompt")
 GNext == /\ k < MaxSteps /\ k' = k + 1
          /\ IF UpOnly THEN GCPubX
-            ELSE IF Alternate THEN (IF k % 2 = 0 THEN GSub \/ GUnsub ELSE GPub)
-                              ELSE (GSub \/ GUnsub \/ GPub \/ GCPub \/ GCPubX)
+            ELSE IF Alternate THEN (IF k % 2 = 0 THEN GSub \/ GUnsub
+                                    ELSE IF WithStall /\ StallPossible THEN GStall ELSE GPub)
+                              ELSE (GSub \/ GUnsub \/ GPub \/ GCPub \/ GCPubX \/ GStall)
 GSpec == GInit /\ [][GNext]_<<dvars, out, pol, k, age>>
 
 GenFiltersWide == {FAH, FAB, FPB, FAP}
